@@ -30,7 +30,7 @@ ASSUMPTIONS = [
     "axes (also the non-transformed ones), then transformed along `axes`",
     "norm=None follows the numpy convention the docstrings refer to (fft unscaled, ifft scaled by 1/N, N = product of the "
     "transformed output lengths)",
-    "axes hold no repeated axis (after normalising negative aliases); lengths >= 1 (no empty arrays)",
+    "axes hold no repeated axis (after normalising negative aliases); the empty subset (identity) is generated; lengths >= 1 (no empty arrays)",
     "real inputs: the docstrings document no result precision, so only 'result is complex' and single-precision accuracy "
     "are asserted (the code casts real inputs, float64 included, to complex64)",
     "tolerances (2-norm of the error / (||resized x|| * operator norm)): 1e-12 for complex128, 2e-5 for complex64 and real "
@@ -51,6 +51,8 @@ def st_case(draw):
     nd = len(sh)
     dt = draw(st.sampled_from(DT))
     axes = draw(A.axes_subset(nd))
+    if draw(st.sampled_from([False] * 19 + [True])):
+        axes = []           # the empty subset: the DFT over no axes is the identity (after the centre pad/crop)
     center = draw(st.integers(0, 3)) > 0
     norm = draw(st.sampled_from(["ortho", None]))
     oshape = None
@@ -72,7 +74,8 @@ def st_case(draw):
             oshape.append(o)
     x = draw(A.arrays(sh, dt))
     return {"x": x, "axes": axes, "axes_tuple": draw(st.booleans()), "center": center, "norm": norm,
-            "oshape": oshape, "oshape_tuple": draw(st.booleans()), "yseed": draw(A.seeds)}
+            "oshape": oshape, "oshape_tuple": draw(st.booleans()), "yseed": draw(A.seeds),
+            "layout": draw(st.sampled_from(A.LAYOUTS))}
 
 
 # ------------------------------------------------------------------ oracle
@@ -157,7 +160,10 @@ def _cmp(r, key, got, want, scale, rel, want_dtype, extra):
 def check_case(case):
     import sigpy as sp
     r = R()
-    x = A.arr(case["x"])
+    # the caller's array in the generated memory layout (C, Fortran, strided view, negative stride): same values
+    x = A.relayout(A.arr(case["x"]), case.get("layout", "c"))
+    if case.get("layout", "c") != "c":
+        r.label("layout:" + case["layout"])
     nd = x.ndim
     sh = list(x.shape)
     axes, center, norm, oshape = case["axes"], case["center"], case["norm"], case["oshape"]
@@ -247,6 +253,8 @@ def check_case(case):
                     _cmp(r, "%s.H.apply:values:%s" % (cname, ck), got, outs[bwd + ":want"], nx, rel, want_dtype, cfg)
 
     # ---- classes
+    if axes is not None and len(axes) == 0:
+        r.label("axes:empty")
     strict = len(set(axn)) < nd
     odd_t = any(osh[a] % 2 == 1 and osh[a] > 1 for a in axn)
     r.label("center" if center else "nocenter", "norm=%s" % norm, str(x.dtype), "ndim%d" % nd, "x:" + case["x"]["k"])
